@@ -149,18 +149,21 @@ func runDiff(c *core.Ctx, pool *gjs.Pool) {
 		}
 		return
 	}
-	if b.NativeErr != "" || b.Native.End != "exit" {
+	if b.NativeErr != "" || !endedOK(b.Native) {
 		c.Infra(fmt.Errorf("reference toolchain on the differential program: %s end=%s %s", b.NativeErr, b.Native.End, b.Native.Msg))
 		return
 	}
 	nat, err := parseDigests(b.Native.Lines)
+	if wantLines := nblocks*len(fnNames) + len(ufnNames)*(0x110000/1024+1); err == nil && len(nat) != wantLines {
+		err = fmt.Errorf("%d digest lines, want %d", len(nat), wantLines)
+	}
 	if err != nil {
 		c.Infra(fmt.Errorf("differential program (native): %v", err))
 		return
 	}
 	c.Add("programs", 2)
 	col := newCollector()
-	if b.JS.End != "exit" {
+	if !endedOK(b.JS) {
 		col.fail(&failure{group: "diff-js-abort", keys: []string{"diff_program_aborted"},
 			summary: fmt.Sprintf("the differential program compiled by GopherJS did not run to completion: end=%s msg=%s", b.JS.End, b.JS.Msg), files: prog.ReplayFiles("prog")})
 		col.flush(c)
@@ -208,7 +211,7 @@ func runDiff(c *core.Ctx, pool *gjs.Pool) {
 		}
 		vp := diffProgram(seed, nblocks, vl)
 		vb := pool.RunBoth(c.Scratch, vp, gjs.Opts{}, 10*time.Minute, true, false)
-		if vb.BuildErr != nil || vb.NativeErr != "" || vb.Native.End != "exit" || len(vb.JS.Lines) != len(vb.Native.Lines) {
+		if vb.BuildErr != nil || vb.NativeErr != "" || !endedOK(vb.Native) || len(vb.JS.Lines) != len(vb.Native.Lines) {
 			c.Infra(fmt.Errorf("differential program, verbose pass: build=%v native=%s js lines %d native lines %d", vb.BuildErr, vb.NativeErr, len(vb.JS.Lines), len(vb.Native.Lines)))
 			return
 		}
